@@ -31,8 +31,25 @@ func (g *GcsEmu) makeBucketListResults(ctx context.Context, baseUrl HttpBaseUrl,
 		}
 	}
 
+	// collapse returns the prefix (up to and including the first delimiter after the request prefix) that the
+	// given object name is rolled up into, if any.
+	collapse := func(filename string) (string, bool) {
+		if delimiter == "" || !strings.HasPrefix(filename, prefix) {
+			return "", false
+		}
+		delimiterPos := strings.Index(filename[len(prefix):], delimiter)
+		if delimiterPos < 0 {
+			return "", false
+		}
+		return filename[:len(prefix)+delimiterPos+len(delimiter)], true
+	}
+	// The cursor is the last name accounted for by the previous page. If that name was rolled up into a prefix, the
+	// prefix has been reported already: the remaining names under it must not report it again.
+	cursorPrefix, _ := collapse(cursor)
+
 	moreResults := false
 	count := 0
+	lastCounted := ""
 	err := g.store.Walk(ctx, bucket, func(ctx context.Context, filename string, fInfo os.FileInfo) error {
 		dbgWalk("walk: %s", filename)
 
@@ -65,26 +82,24 @@ func (g *GcsEmu) makeBucketListResults(ctx context.Context, baseUrl HttpBaseUrl,
 			return nil
 		}
 
+		// See if the filename (beyond the prefix) contains delimiter, if it does, don't record the item,
+		// instead record the prefix (including the delimiter), once.
+		itemPrefix, collapsed := collapse(filename)
+		if collapsed && (seenPrefixes[itemPrefix] || (cursor != "" && itemPrefix == cursorPrefix)) {
+			return nil // already reported
+		}
+
 		if count >= maxResults {
 			moreResults = true
 			return errAbort
 		}
 		count++
+		lastCounted = filename
 
-		if delimiter != "" {
-			// See if the filename (beyond the prefix) contains delimiter, if it does, don't record the item,
-			// instead record the prefix (including the delimiter).
-			withoutPrefix := strings.TrimPrefix(filename, prefix)
-			delimiterPos := strings.Index(withoutPrefix, delimiter)
-			if delimiterPos >= 0 {
-				// Got a hit, reconstruct the item's prefix, including the trailing delimiter
-				itemPrefix := filename[:len(prefix)+delimiterPos+len(delimiter)]
-				if !seenPrefixes[itemPrefix] {
-					seenPrefixes[itemPrefix] = true
-					prefixes = append(prefixes, itemPrefix)
-				}
-				return nil
-			}
+		if collapsed {
+			seenPrefixes[itemPrefix] = true
+			prefixes = append(prefixes, itemPrefix)
+			return nil
 		}
 
 		found = append(found, item{
@@ -122,10 +137,15 @@ func (g *GcsEmu) makeBucketListResults(ctx context.Context, baseUrl HttpBaseUrl,
 		}
 	}
 
+	// The page token is the last name this page accounts for (an item, or a name rolled up into a prefix).
 	var nextPageToken = ""
-	if moreResults && len(items) > 0 {
-		lastItemName := items[len(items)-1].Name
-		nextPageToken = gcsutil.EncodePageToken(lastItemName)
+	if len(items) < len(found) {
+		// could not resolve every item: the client continues after the last one we return
+		if len(items) > 0 {
+			nextPageToken = gcsutil.EncodePageToken(items[len(items)-1].Name)
+		}
+	} else if moreResults && lastCounted != "" {
+		nextPageToken = gcsutil.EncodePageToken(lastCounted)
 	}
 
 	rsp := storage.Objects{
